@@ -47,6 +47,10 @@ def model_search(ctx):
                 reqs.append((pw, f"splitn x{s} {n} x2c"))
                 reqs.append((pw, f"rsplitn x{s} {n} x2c"))
             reqs.append((pw, f"repeat x{s} 3"))
+            # the substring family (transliterated since round 4): a byte-offset rewrite panics in the model
+            for t in ("", "61", "78", "c3a9", "6162", "e69cac"):
+                for f in ("contains", "starts_with", "ends_with", "strip_prefix", "strip_suffix", "split"):
+                    reqs.append((pw, f"{f} x{s} x{t}"))
         for n in (0, 1, 5):
             for i in idx:
                 reqs.append((pw, f"list_get {n} {i}"))
@@ -84,12 +88,16 @@ def run(ctx):
         "Cranelift instruction semantics as written in RotoV/Model/Clif.lean (sdiv/udiv/srem/urem trap conditions; "
         "validated on every boundary pair by the worker oracle, not verified)",
         "std (`str` methods, `Vec`, allocator, `Mutex`) and inetnum 0.1.1 behave as read in RotoV/Model/Builtins.lean "
-        "(`str::get`, slice indexing, `splitn`, `lines`, `repeat`, `Prefix::new_relaxed`); every modelled result is "
+        "(`str::get`, slice indexing, `split_at`, `splitn`, `lines`, `repeat`, `contains`/`starts_with`/`ends_with`/`strip_*`/"
+        "`split`, `match_indices('\\n')`, `Prefix::new_relaxed`); every modelled result is "
         "compared with the real built-in on all generated cases",
         "`std::sync::Mutex` as read in RotoV/Model/MutexPanic.lean (`lock` blocks on contention and fails only when "
         "poisoned, `try_lock` fails while anyone holds the mutex, `unwrap`/`expect` of an `Err` panic); assumption: no "
         "host code panics while holding a list's lock (mutexes start unpoisoned); the contention cases of the worker "
         "oracle sample interleavings (every list built-in against a host `to_vec` holder and against itself on 4 threads)",
+        "the translator's tables of std functions read as total / as panicking on some arguments (by method name, "
+        "extract/src/targets/c10.rs: TOTAL_METHODS, TOTAL_PATHS, PARTIAL_METHODS, PARTIAL_PATHS) behind Binding.surface / "
+        "StrFn.surface; `StringBuf` is thread-local because src/lib.rs does not export the type (read on every run)",
         "partial: an abort raised inside std or the allocator (not expressible as an argument-validation panic) is "
         "visible only to the worker oracle; memory exhaustion (`repeat` beyond ~1 MB) is a documented limit and is not generated",
     ]
